@@ -269,3 +269,20 @@ PROPS["C20"] = dict(
     assumptions=["allocation requests made through the C library entry points above (what libsodium uses on Linux); mlock/mprotect failures are not allocation failures and are not injected",
                  "clang -O1 ASan+UBSan build of /repo's working tree"],
 )
+
+PROPS["C10"] = dict(
+    name="c10", sources=["props/c10.cpp"], engine="enumerator (deterministic corpus x configurations)",
+    builds=[("asan", "native"), ("asan", "noasm"), ("asan", "noti"), ("asan", "portable"), ("asan", "nosimd")],
+    builds_thorough=[("asan", "native"), ("asan", "noasm"), ("asan", "noti"), ("asan", "portable"), ("asan", "nosimd"), ("plain", "native"), ("plain", "portable")],
+    level="exploration",
+    rule=("A shared deterministic corpus (pure function of VERIF_SEED) drives harness/apitable.hpp: 56 drivers covering ~290 public deterministic functions (all AEAD forms, MAC/hash one-shot and streaming, KDFs, stream "
+          "ciphers and cores, secretbox/box incl. NaCl and afternm forms, seal_open, secretstream, X25519, kx, Ed25519 incl. ph and conversions, Edwards/Ristretto group, scalar and hash-to-group functions, comparison/"
+          "arithmetic helpers, codecs, padding, Argon2/scrypt raw + verify/needs_rehash), with argument lengths at block boundaries (0,1,15-17,31-33,63-65,127-129,255-257,511-513,1023-1025) and random lengths <= 4 KiB. "
+          "(a) in-process, per case: outputs and return codes under every mask of the chain AVX-512F > AVX2 > AVX > SSE4.1 > SSSE3 > SSE3 > none, with AES-NI/PCLMUL off, and under random closed feature subsets must "
+          "equal those of the reference configuration (mask none; for AES-256-GCM: mask all, compared only where it is available). (b) across builds {native, noasm, noti, portable, nosimd} (thorough: + gcc builds): the "
+          "driver compares the per-case digests of all builds. (c) for all 1024 subsets of the 10 feature bits: reported flags == detected & mask and crypto_aead_aes256gcm_is_available() == aesni & pclmul & avx of "
+          "the masked flags (0 in the nosimd build, where every GCM entry point must return -1/ENOSYS); unmasked flags must all appear in /proc/cpuinfo. Non-trivial = (case, mask) whose effective feature set differs "
+          "from the reference; distinct = (build, driver, seed, length policy, mask)."),
+    exhaustive_axes="all 1024 feature-bit subsets for the flag/availability checks; the full mask chain for every corpus case",
+    assumptions=ASSUME_COMMON + ["ARM NEON / crypto-extension code, big-endian hosts, Windows and ILP32 ABIs cannot be executed on this image"],
+)
